@@ -26,7 +26,7 @@ RULE = (
     "if recomputed at the queried state (sensitivity guard) ; distinct = shape signature"
 )
 ASSUMPTIONS = ["reference two-phase evaluator mon/refmodel.py", "functions non-constant in every argument (mon/fnlib)"]
-N = {"quick": 1500, "thorough": 20000}
+N = {"quick": 1500, "thorough": 400000}
 MIN_NONTRIVIAL = {"quick": 60, "thorough": 600}
 
 
